@@ -1155,6 +1155,21 @@ impl<'a> Gen<'a> {
           if slow {
             self.expect_diag = true;
             self.feat("slow:pattern-no-type");
+          } else if self.rng.chance(25) {
+            // no annotation, a literal default that fast check keeps, and an initialiser INSIDE the pattern:
+            // the kept default is judged, the pattern must not carry executable logic either
+            let init = if self.rng.chance(50) { "Math.random()" } else { "String(Date.now())" };
+            p.pat = if matches!(p.pat, Pat::Array(_)) {
+              Pat::Array(vec![format!("x{} = {}", k, init), format!("y{}", k)])
+            } else {
+              Pat::Object(vec![format!("x{} = {}", k, init), format!("y{}", k)])
+            };
+            p.default = Some(if matches!(p.pat, Pat::Array(_)) {
+              Expr::Array(vec![Expr::Num(1), Expr::Num(2)])
+            } else {
+              Expr::Object(vec![(format!("x{}", k), None, Some(Expr::Num(1))), (format!("y{}", k), None, Some(Expr::Num(2)))])
+            });
+            self.feat("param-pattern-inner-initialiser");
           } else {
             p.ty = Some(Ty::Kw("any"));
             if self.rng.chance(40) {
